@@ -12,6 +12,12 @@ nfix=sum(1 for e in kf if e['status']=='fixed'); nopen=sum(1 for e in kf if e['s
 tab=f"{nfix} repaired, {nopen} open.\n\n"+'\n'.join(rows)
 s=re.sub(r'(<!-- BEGIN GENERATED: findings -->\n).*?(<!-- END GENERATED: findings -->)',lambda m:m.group(1)+tab+'\n'+m.group(2),s,flags=re.S)
 det=[]
+# own mutants that turned out to change nothing the property can observe (analysed by hand)
+EQUIV={
+ 'C04-comment-evaluated':'the extra nodes are empty text nodes; the output is byte-identical for every template',
+ 'C04-findnexttag-end':'only an opener in the last two bytes of the source is affected, i.e. an unclosed tag at end of input, whose treatment the statement leaves open',
+ 'C05-set-no-bounds':'equivalent: the token stream always ends with an EOF token, which the second disjunct of the guard rejects before the index can pass the end (checks/c05/NOTES.md, M7)',
+}
 mr={}
 p=f'{here}/mutants/results.json'
 if os.path.exists(p): mr=json.load(open(p))
@@ -20,6 +26,7 @@ if mr:
     for k in sorted(mr,key=lambda k:(mr[k].get('property',''),k)):
         r=mr[k]
         fc=r.get('first_case','').replace('|','\\|')[:120]
+        if r.get('status')=='MISSED' and k in EQUIV: fc='*not observable:* '+EQUIV[k]
         det.append(f"| {k} | {r.get('property')} | {r.get('suite','—')[:40]} | {r.get('status')} | {fc} |")
     det.append('')
 sd=sorted(glob.glob(f'{here}/seeded/*/meta.json'))
